@@ -1055,11 +1055,7 @@ impl Visitor for ScopeVisitor {
                 .start_position()
                 .unwrap()
                 .bytes(),
-            numeric_for
-                .start_end_comma()
-                .start_position()
-                .unwrap()
-                .bytes(),
+            numeric_for.start().end_position().unwrap().bytes(),
         );
 
         // The three control expressions are evaluated before the loop variable exists
